@@ -610,15 +610,23 @@ fn geoms(g: &mut G) -> LefLibrary {
         LefVia { via_name: g.name("via12", "geoms.vianame"), pt: g.point("1.5", "2.5", "geoms.vx", "geoms.vy") },
         LefVia { via_name: "via23".into(), pt: pt("-1.25", "-2.75") },
     ];
-    let sel = g.c.cost(gs.len() + 3, "geoms.select");
-    if sel >= 1 && sel <= gs.len() {
+    // default: everything except ITERATE on POLYGON / PATH (indices 5 and 8), which are alternatives
+    let n = gs.len();
+    let sel = g.c.cost(n + 4, "geoms.select");
+    if sel == 0 {
+        gs.remove(8);
+        gs.remove(5);
+    } else if sel <= n {
         gs = vec![gs[sel - 1].clone()];
         vias.clear();
-    } else if sel == gs.len() + 1 {
+    } else if sel == n + 1 {
         gs.clear();
-    } else if sel == gs.len() + 2 {
+    } else if sel == n + 2 {
+        gs.remove(8);
+        gs.remove(5);
         vias.clear();
     }
+    // sel == n + 3: all nine geometries
     let l = LefLayerGeometries { layer_name: "met1".into(), geometries: gs, vias, except_pg_net: None, spacing: None, width: Some(d("0.07")) };
     let mut p = simple_pin("pin_a", "x", rect("0", "0", "0", "0"));
     p.ports = vec![LefPort { class: None, layers: vec![l, layer("met2", vec![rect("5", "6", "7", "8")])] }];
